@@ -420,6 +420,21 @@ pub fn cell_set(rng: &mut Rng, flavour: &str) -> Vec<MCell> {
             out.sort();
             out.dedup();
         }
+        "ancestors" => {
+            // an antichain plus, for a third of its cells, a chain of 1-3 consecutive ancestors
+            let mut base = cell_set(rng, "antichain");
+            let mut extra: Vec<MCell> = Vec::new();
+            for c in &base {
+                if rng.chance(0.35) {
+                    let k = 1 + rng.below(3) as i32;
+                    for t in ((c.res - k).max(-1)..c.res).rev() {
+                        extra.push(parent_at(*c, t).unwrap());
+                    }
+                }
+            }
+            base.extend(extra);
+            out = base;
+        }
         "overlap" => {
             // ancestor + descendant mixes and duplicates
             let mut base = cell_set(rng, "antichain");
